@@ -4,7 +4,8 @@ import collections
 import numpy as np
 
 RULE = ('cases = seeded sets of 1-8 integer trajectories (lengths 1-40 incl. '
-        'shorter than the lag, 1-7 states, disjoint per-trajectory alphabets '
+        'shorter than the lag, 1-7 states or up to 400 state ids in '
+        'int8/uint8/int16/uint16/int32, disjoint per-trajectory alphabets '
         'in a third of cases) x lag 1-45 x sliding on/off x explicit/inferred '
         'state count, each counted in up to 5 presentations (ragged, -1 padded, '
         'rectangular, shuffled, split halves) and through MSM.fit; '
@@ -62,16 +63,31 @@ def run_case(ctx, kind, rng, idx):
     else:
         lens = [int(x) for x in rng.integers(1, 41, size=ntraj)]
     disjoint = rng.random() < 0.33
+    wide = (not disjoint) and rng.random() < 0.25
     trajs = []
+    if wide:
+        # large state ids in narrow integer types (few states visited)
+        wdt, top = [(np.int8, 127), (np.uint8, 255), (np.int16, 400),
+                    (np.uint16, 400), (np.int32, 400)][int(rng.integers(0, 5))]
+        nst = int(rng.integers(12, top + 1))
+        visited = rng.choice(nst, size=min(nst, int(rng.integers(2, 6))),
+                             replace=False)
+        if rng.random() < 0.7:
+            visited[0] = nst - 1
     for i, L in enumerate(lens):
         if disjoint:
             # every trajectory uses its own alphabet: a pair spanning two
             # trajectories lands in an otherwise impossible cell
             t = rng.integers(0, 2, size=L) + 2 * i
+        elif wide:
+            t = visited[rng.integers(0, len(visited), size=L)]
         else:
             t = rng.integers(0, nst, size=L)
-        trajs.append(t.astype([np.int64, np.int32, np.int16][
-            int(rng.integers(0, 3))] if not disjoint else np.int64))
+        if wide:
+            trajs.append(t.astype(wdt))
+        else:
+            trajs.append(t.astype([np.int64, np.int32, np.int16][
+                int(rng.integers(0, 3))] if not disjoint else np.int64))
     # lags: straddle the trajectory lengths
     cand = [1, 2, 3] + [max(1, L + d) for L in lens for d in (-1, 0, 1)]
     lag = int(cand[int(rng.integers(0, len(cand)))]) if rng.random() < 0.6 \
@@ -83,7 +99,8 @@ def run_case(ctx, kind, rng, idx):
     ns = n_states if explicit else observed
     exp = oracle(trajs, lag, sliding, ns)
     desc = {'lens': lens, 'lag': lag, 'sliding': sliding, 'n_states': n_states,
-            'disjoint_alphabets': disjoint,
+            'disjoint_alphabets': disjoint, 'dtype': str(trajs[0].dtype),
+            'wide_alphabet': wide,
             'trajs': [t.tolist() for t in trajs] if sum(lens) < 80 else 'elided'}
     ctx.describe(desc)
     if idx % 1500 == 0:
@@ -131,13 +148,17 @@ def run_case(ctx, kind, rng, idx):
                           % (got.sum(), tot))
     # padded rectangle
     maxL = max(lens)
-    pad = -np.ones((ntraj, maxL + int(rng.integers(0, 3))), dtype=np.int64)
+    pdt = np.int64
+    if wide and np.issubdtype(trajs[0].dtype, np.signedinteger):
+        pdt = trajs[0].dtype          # keep the narrow type when -1 fits
+    pad = -np.ones((ntraj, maxL + int(rng.integers(0, 3))), dtype=pdt)
     for i, t in enumerate(trajs):
         pad[i, :len(t)] = t
     call('padded', pad, exp)
     # rectangular plain array
     if len(set(lens)) == 1:
-        call('rect', np.array([t.astype(np.int64) for t in trajs]), exp)
+        call('rect', np.array([t if wide else t.astype(np.int64)
+                               for t in trajs]), exp)
     # shuffled order
     if ntraj > 1:
         perm = rng.permutation(ntraj)
